@@ -290,8 +290,34 @@ func (tb TemporalBound) String() string {
 		return "_"
 	case NowBound:
 		return "now"
+	case DurationTemporalBound:
+		return formatDurationBound(tb.Timestamp)
 	default:
 		return "?"
+	}
+}
+
+// formatDurationBound writes a duration in the source syntax for duration bounds:
+// a whole number followed by one of the units d, h, m, s, ms. A duration that has
+// no such form (negative, or not a whole number of milliseconds) is written in
+// the syntax of time.Duration.
+func formatDurationBound(nanos int64) string {
+	d := time.Duration(nanos)
+	switch {
+	case d < 0 || d%time.Millisecond != 0:
+		return d.String()
+	case d == 0:
+		return "0s"
+	case d%(24*time.Hour) == 0:
+		return fmt.Sprintf("%dd", int64(d/(24*time.Hour)))
+	case d%time.Hour == 0:
+		return fmt.Sprintf("%dh", int64(d/time.Hour))
+	case d%time.Minute == 0:
+		return fmt.Sprintf("%dm", int64(d/time.Minute))
+	case d%time.Second == 0:
+		return fmt.Sprintf("%ds", int64(d/time.Second))
+	default:
+		return fmt.Sprintf("%dms", int64(d/time.Millisecond))
 	}
 }
 
